@@ -404,13 +404,12 @@ class CounterToken(Token, FileSystemEventHandler):
                     dependency,
                     dependency.name,
                 )
-                return
-
-            logging.debug("Deleting %s from token cache", dependency.name)
-            del self.cache[dependency.name]
-            self.available += tf.count
-            logging.debug("%s: available %d", self, self.available)
-            tf.delete()
+            else:
+                logging.debug("Deleting %s from token cache", dependency.name)
+                del self.cache[dependency.name]
+                self.available += tf.count
+                logging.debug("%s: available %d", self, self.available)
+                tf.delete()
 
         self.aio_notify()
 
